@@ -46,12 +46,15 @@ class ExecutionContext:
             return self.__CreateStructureInstance(varType)
         elif varType.IsArray():
             assert isinstance(varType, LinearIR.ArrayType)
-            result = [
-                self.__CreateInstance(varType.ElementType)
-            ] * varType.Size[0]
-            for dimSize in varType.Size[1:]:
-                result = [result] * dimSize
-            return result
+
+            # every element (and every row of a multi-dimensional array) is
+            # its own instance; the first dimension is the outermost one
+            def CreateDimension(sizes):
+                if not sizes:
+                    return self.__CreateInstance(varType.ElementType)
+                return [CreateDimension(sizes[1:]) for _ in range(sizes[0])]
+
+            return CreateDimension(list(varType.Size))
 
     def __CreatePrimitiveInstance(self, primitiveType: LinearIR.Type):
         match primitiveType.Kind:
